@@ -7,12 +7,12 @@ PROP = "C03"
 
 def scenarios(rng, tier):
     out = []
-    n = 8 if tier == "quick" else 52
+    n = 9 if tier == "quick" else 56
     kinds = ["file-link", "file-copy", "dir-link", "dir-copy", "dir-recommit", "xdev-link", "checkout-link", "checkout-copy", "stage-add", "stage-remove",
-             "dir-recommit", "stage-symlink", "artifact-xdev"]
+             "dir-recommit", "stage-symlink", "artifact-xdev", "two-stages"]
     for i in range(n):
         kind = kinds[i % len(kinds)] if tier == "thorough" else ["dir-link", "dir-recommit", "xdev-link", "file-copy", "checkout-copy", "stage-add",
-                                                                   "stage-symlink", "artifact-xdev"][i % 8]
+                                                                   "stage-symlink", "artifact-xdev", "two-stages"][i % 9]
         init = []
         stages = []
         if kind == "artifact-xdev":
@@ -21,6 +21,12 @@ def scenarios(rng, tier):
             init = [("mount", b"mnt"), ("dir", b"mnt/tree"), ("file", b"mnt/tree/a.bin", "g:%d:300000" % rng.randrange(100)),
                     ("file", b"mnt/tree/b.bin", "g:%d:5" % rng.randrange(100))]
             stages = [(b"s.yaml", dict(cmd=b"", wd=b".", out=[(b"mnt/tree", "d")]))]
+        elif kind == "two-stages":
+            # two independent stages named on the command line: the stage file of the first is rewritten BEFORE the artifacts of
+            # the second are committed (cmd/commit.go writes stage files after each target)
+            init = [("file", b"one.bin", "g:%d:%d" % (rng.randrange(100), rng.choice([5, 70000]))), ("dir", b"tree"),
+                    ("file", b"tree/x.bin", "g:%d:9" % rng.randrange(100)), ("file", b"tree/y.bin", "g:%d:300" % rng.randrange(100))]
+            stages = [(b"s1.yaml", dict(cmd=b"", wd=b".", out=[(b"one.bin", "")])), (b"s2.yaml", dict(cmd=b"", wd=b".", out=[(b"tree", "d")]))]
         elif kind.startswith("file"):
             init = [("file", b"data.bin", "g:%d:%d" % (rng.randrange(100), rng.choice([0, 5, 70000])))]
             stages = [(b"s.yaml", dict(cmd=b"", wd=b".", out=[(b"data.bin", "")]))]
@@ -55,6 +61,10 @@ def scenarios(rng, tier):
             if rng.random() < 0.5:
                 c["ops"] = [("commit", "l", []), ("write", files[0][1], "g:%d:44" % rng.randrange(3000, 4000))]
             c["cmd"] = ["commit"]
+        elif kind == "two-stages":
+            order = [b"s1.yaml", b"s2.yaml"] if rng.random() < 0.5 else [b"s2.yaml", b"s1.yaml"]
+            c["cmd"] = ["commit"] + ([] if rng.random() < 0.6 else ["--copy"]) + [t.decode() for t in order]
+            c["targets"] = order
         elif kind == "artifact-xdev":
             c["no_trace"] = True
             c["may_fail"] = True
@@ -114,7 +124,8 @@ def main(tier, replay=None):
                     can_rename = c["cache"] != "shm"
                     sc.restore()
                     orders = s2.listing_orders(sc.proj)
-                    mt = s2.model_trace(drv, c, "commit %s %d" % ("c" if "--copy" in c["cmd"] else "l", 1 if can_rename else 0), orders)
+                    mt = s2.model_trace(drv, c, ("commit %s %d" % ("c" if "--copy" in c["cmd"] else "l", 1 if can_rename else 0)) +
+                                        "".join(" " + s1.hx(t) for t in c.get("targets", [])), orders)
                     a, b = s2.renumber(canon), s2.renumber(mt or [])
                     if a != b:
                         import difflib
